@@ -22,6 +22,7 @@ fn path_probe(p: &PathData) -> PathProbe {
         sending_ecn: p.sending_ecn,
         rtt_us: p.rtt.get().as_micros() as u64,
         pto_base_us: p.rtt.pto_base().as_micros() as u64,
+        rtt_parts_ns: p.rtt.verif_parts(),
     }
 }
 
